@@ -187,7 +187,7 @@ Proof. vm_compute. split; reflexivity. Qed.
 Definition deep_root : group :=
   G 0 false None None []
     [NGroup (G 0 false None None
-       [FD 9 19 [PR 9 1 [] (Some (G 0 false None None []
+       [FD 9 19 [PR 9 0 1 [] (Some (G 0 false None None []
           [NGroup (G 0 false None (Some (MD 8 18 None (G 0 false None None []
              [NPath 0 (PPat 7 17 (G 0 false None None [] [NGroup (G 0 false (Some (CD 1 11 None leaf)) None [] [])])) PNone]))) [] [])]))]] [])].
 Example C05_nv_deep : map c_ptr (t_clips (with_collections deep_root)) = [1] /\
